@@ -24,12 +24,19 @@ def gen_cases(rng, tier):
             h = gens.hist(rng, max_faces=4, frac_p=0.1)
             hi = 12 if tier == "quick" else (40 if len(h) <= 3 else 14)
             m = rng.choice([-2, -1, 0, 0, 1, 1, 2, 2, 3, 4, 5, rng.randint(6, hi)])
-            if rng.random() < 0.12:
+            hn = None
+            if rng.random() < 0.15:
+                hn = rng.choice([-6, -4, -3, -2])
+                h = [[gens.q(v), 1] for v in range(hn, 0)]
+                m = rng.choice([1, 2, 3, 3, 5])
+            if rng.random() < 0.12 and hn is None:
                 # larger repetition counts (powers of two and their neighbours, multiples of 16) on small dice
                 h = gens.hist(rng, max_faces=2, frac_p=0.0, style=rng.choice(["unit", "pos"]))
                 m = rng.choice([15, 16, 17, 31, 32, 33, 48, 64])
                 npcounts = rng.random() < 0.5
             c = {"kind": "matmul_h", "n": m, "h": h, "m2": rng.randint(1, 4)}
+            if hn is not None:
+                c["hn"] = hn
             if locals().get("npcounts"):
                 c["ctyp"] = "npint64"     # counts given as NumPy integers are the ints they equal: h.total**n is exact
                 npcounts = False
@@ -56,6 +63,9 @@ def gen_cases(rng, tier):
                 if rng.random() < 0.4:
                     dice, _ = pools.gen_pool(rng, max_dice=3, max_faces=3)
                     args.append({"p": dice})
+                elif rng.random() < 0.25:
+                    nn = rng.choice([-4, -3, -2, -1, 2, 3])
+                    args.append({"hn": nn, "h": [[gens.q(v), 1] for v in (range(nn, 0) if nn < 0 else range(1, nn + 1))]})
                 else:
                     args.append({"h": gens.hist(rng, max_faces=3, frac_p=0.1)})
             perm = list(range(len(args)))
@@ -89,6 +99,8 @@ def _args_py(args):
     for a in args:
         if "p" in a:
             out.append(pools.py_pool(a["p"]))
+        elif "hn" in a:
+            out.append(H(a["hn"]))                       # the H(n) shorthand, n < 0 included: faces n..-1
         else:
             out.append(H(gens.py_hist_dict(a["h"])))
     return out
@@ -162,7 +174,9 @@ def impl_run(case):
     try:
         if k == "matmul_h":
             d = gens.py_hist_dict(case["h"])
-            if case.get("ctyp") == "npint64":
+            if case.get("hn") is not None:
+                d = case["hn"]
+            if case.get("ctyp") == "npint64" and not isinstance(d, int):
                 import numpy
                 d = {o: numpy.int64(c) for o, c in d.items()}
             h = H(d)
@@ -323,6 +337,8 @@ def agree(case, r, o):
         return False
     if k == "matmul_h":
         if r["total"] != o["total"] and case["n"] != 0:
+            return False
+        if r.get("htotal") != sum(c for _, c in case["h"]):
             return False
         return all(r.get(x, True) for x in ("split_ok", "pool_ok", "rmatmul_ok"))
     if k == "mkp":
